@@ -35,7 +35,8 @@ TRUSTED = ['independent UPA reference (harness/lib_cm.py, position automaton wit
            'deterministic models the property quantifies over; cross-checked against the proved oracle on every word '
            '(ref_accepts vs inModel)',
            'children of the validated parent are simple-typed leaves (xs:string): their own validation is C02']
-ASSUMPTIONS = ['XSD 1.1 open content is explored by C01 only through the oracle (not ported into M)']
+ASSUMPTIONS = ['open-content wildcards use processContents=lax (the strict branch needs the global element map)',
+               'UPA for open content: the wrapped model must be deterministic; competition between the open wildcard and the model is resolved in favour of the model (XSD 1.1)']
 
 KNOWN_ID = 'C01-F0'
 
@@ -54,8 +55,9 @@ def validate_word(xsd_element: Any, k: int, word: list[str], ids: dict[int, int]
     return elem, out, other
 
 
-def run_batch(ctx: Ctx, drv: Optional[Driver], models: list[tuple], v11: bool, maxlen: int, fam: str) -> None:
-    schema = cm.build_schema(models, v11)
+def run_batch(ctx: Ctx, drv: Optional[Driver], models: list[tuple], v11: bool, maxlen: int, fam: str,
+              oc: Optional[tuple] = None) -> None:
+    schema = cm.build_schema(models, v11, oc=oc)
     reqs = []
     pend = []
     for k, ast in enumerate(models):
@@ -72,7 +74,11 @@ def run_batch(ctx: Ctx, drv: Optional[Driver], models: list[tuple], v11: bool, m
                          cm.ast_of_json(intro.json), ast)
             continue
         alpha = cm.alphabet(ast)
-        foreign = [s for s in ('c', 'o') if s not in alpha][:1]
+        foreign = [s for s in (('o', 'c') if oc else ('c', 'o')) if s not in alpha][:1]
+        ocj = None
+        if oc is not None:
+            wobj = xe.type.open_content.any_element
+            ocj = {'mode': oc[0], 'wild': intro.walk(wobj)}
         if ctx.quick() or fam == 'random':
             words = cm.word_set(ctx.rng, ast, alpha + foreign, 3 if len(alpha) < 3 else 2, maxlen + 2, 40)
         else:
@@ -85,17 +91,19 @@ def run_batch(ctx: Ctx, drv: Optional[Driver], models: list[tuple], v11: bool, m
             elem, errs, other = validate_word(xe, k, w, ids)
             valid = xe.is_valid(elem)
             impl.append({'valid': valid, 'errs': errs, 'other': other})
-        reqs.append({'n': len(intro.objs), 'model': intro.json, 'words': [cm.word_json(w) for w in words]})
+        reqs.append({'n': len(intro.objs), 'model': intro.json, 'words': [cm.word_json(w) for w in words], 'oc': ocj})
         pend.append((ast, words, impl))
     answers = drv.query(reqs) if drv is not None and reqs else [None] * len(reqs)
     for (ast, words, impl), ans in zip(pend, answers):
         mshow = cm.show(ast)
         for i, w in enumerate(words):
             case = {'v': '1.1' if v11 else '1.0', 'model': mshow, 'ast': ast, 'word': ''.join(w)}
+            if oc:
+                case['open_content'] = list(oc)
             im = impl[i]
             nontrivial = bool(w) and (len(cm.leaves(ast)) > 1 or (ast[2], ast[3]) != (1, 1))
             ctx.case(case, nontrivial, tag=f"{case['v']}/{fam}")
-            ref = cm.ref_accepts(ast, w)
+            ref = cm.ref_accepts_oc(ast, w, oc) if oc else cm.ref_accepts(ast, w)
             if im['other']:
                 ctx.failure('unexpected non-children error for a simple-typed child', case, im['other'])
             if im['valid'] != (not im['errs']):
@@ -144,6 +152,9 @@ def families(ctx: Ctx):
         yield 'exh3-sample', v11, rng.sample(three, min(len(three), n3)), 5
         rnd = [cm.random_model(rng, ['a', 'b', 'c', 'h'], v11=v11) for _ in range(ctx.pick(300, 4000))]
         yield 'random', v11, rnd, ctx.pick(5, 6)
+    for oc in (('interleave', '##other'), ('suffix', '##other'), ('interleave', '##any'), ('suffix', '##any')):
+        rnd = [cm.random_model(rng, ['a', 'b'], max_depth=2, v11=True, any_p=0.0) for _ in range(ctx.pick(60, 1500))]
+        yield ('open-content', oc), True, rnd, 4
 
 
 def fam_deadline(ctx: Ctx, fam: str) -> float:
@@ -177,6 +188,9 @@ def run(ctx: Ctx, driver_ok: bool) -> None:
     drv = Driver('drv_c01') if driver_ok else None
     corpus(ctx)
     for fam, v11, models, maxlen in families(ctx):
+        oc = None
+        if isinstance(fam, tuple):
+            fam, oc = fam
         for i in range(0, len(models), 40):
             if ctx.time_left() < 60:
                 ctx.notes.append(f'time budget reached in family {fam}')
@@ -184,7 +198,7 @@ def run(ctx: Ctx, driver_ok: bool) -> None:
             if ctx.elapsed() > fam_deadline(ctx, fam):
                 ctx.notes.append(f'family {fam} (1.{int(v11)}) cut at its time share after {i} models')
                 break
-            run_batch(ctx, drv, models[i:i + 40], v11, maxlen, fam)
+            run_batch(ctx, drv, models[i:i + 40], v11, maxlen, fam, oc)
 
 
 def search(ctx: Ctx) -> None:
@@ -193,10 +207,13 @@ def search(ctx: Ctx) -> None:
     ctx.budget_s += 600
     try:
         for fam, v11, models, maxlen in families(ctx):
+            oc = None
+            if isinstance(fam, tuple):
+                fam, oc = fam
             for i in range(0, len(models), 40):
                 if ctx.failures or ctx.time_left() < 30:
                     return
-                run_batch(ctx, None, models[i:i + 40], v11, maxlen, fam)
+                run_batch(ctx, None, models[i:i + 40], v11, maxlen, fam, oc)
     finally:
         ctx.tier = saved
 
